@@ -73,7 +73,7 @@ theorem xor_key_involutive (l : Bytes) : (l.map (· ^^^ key)).map (· ^^^ GEARSE
   conv => rhs; rw [← List.map_id l]
   apply List.map_congr_left; intro x _
   simp only [Function.comp, key, GEARSET_KEY, id]
-  bv_decide
+  bv_decide (timeout := 300)
 
 /-! ### writer = documented format -/
 
@@ -175,7 +175,7 @@ theorem wf_sizes (t : Table) (h : WF t) :
 
 theorem strip_marker (id : UInt32) (h : id &&& marker = 0) : convertFromGearId (convertToGearId id) = id := by
   simp only [convertFromGearId, convertToGearId, UNKNOWN_FLAG, marker] at *
-  bv_decide
+  bv_decide (timeout := 300)
 
 theorem convertIdOpt_optId (o : Option UInt32) (h : o ≠ some 0) : convertIdOpt (optId o) = o := by
   cases o with
